@@ -104,6 +104,18 @@ def run(ctx) -> None:
                 ok, msg = False, "synthetic descendant events precede the event of the directory itself"
             if ok and len(prim) > 1:
                 ok, msg = False, f"{len(prim)} {fam} events for one native record"
+            # a directory that arrives or is renamed under a recursive watch brings descendants with it: on such a path the matching
+            # sub-event generator is emitted in full, with the same path(s) as the directory's own event (the descendants' creations /
+            # moves exist in the stream nowhere else)
+            if ok and isdir is True and info["rec"] is True and ((kind == "tuple") or (fam == "Created") or (kind == "is_moved_to" and fam == "Moved")):
+                want_gen = "generate_sub_moved_events" if kind == "tuple" else "generate_sub_created_events"
+                full_gens = [e2 for e2 in r.emissions if e2.kind == "G" and e2.cls == want_gen]
+                if not full_gens:
+                    ok, msg = False, f"a directory {'renamed' if kind == 'tuple' else 'arriving'} under a recursive watch is reported without its descendants on this path (no complete {want_gen}(...) emission; emits: {r.brief()[:140]}): what lies below it is in no event of the stream"
+                elif kind == "tuple" and [role_of(a) for a in full_gens[0].args] != [("self", "ev[0]"), ("self", "ev[1]")]:
+                    ok, msg = False, f"{want_gen} is given {[role_of(a) for a in full_gens[0].args]}, expected the (source, destination) of the two halves"
+                elif kind != "tuple" and [role_of(a) for a in full_gens[0].args][:1] != [("self", "ev")]:
+                    ok, msg = False, f"{want_gen} walks {[role_of(a) for a in full_gens[0].args]}, expected the arriving directory itself"
         ctx.check(ok, RT, construct, msg, loc, {"emits": r.brief()})
         covered.add((kind, isdir, full))
     for kind in WANT:
